@@ -156,7 +156,19 @@ def run_read(version, packets, thr, enc, chunk, total_cut, seed, force_compress=
     return run, tr, delivered
 
 
-def run_write(version, sizes, thr, enc, seed, forced_mask=0):
+def fill_bytes(rng, n, fill):
+    """n bytes of the given compressibility: 'random' (incompressible), 'zeros', 'text' (repeating), 'mixed' (half/half)."""
+    if fill == 'zeros':
+        return bytes(n)
+    if fill == 'text':
+        return (b'the quick brown fox ' * (n // 20 + 1))[:n]
+    if fill == 'mixed':
+        k = n // 2
+        return bytes(rng.getrandbits(8) for _ in range(k)) + bytes(n - k)
+    return bytes(rng.getrandbits(8) for _ in range(n))
+
+
+def run_write(version, sizes, thr, enc, seed, forced_mask=0, fills=None):
     """The real client writes serverbound plugin messages of the given payload sizes; the peer decodes."""
     from minecraft.networking.packets import serverbound
     prof = Profile(version)
@@ -195,7 +207,7 @@ def run_write(version, sizes, thr, enc, seed, forced_mask=0):
         for j, n in enumerate(sizes):
             chan = 'w:%d' % j
             head = len(P.VI(sb_id)) + len(P.S(chan))
-            data = bytes(rng.getrandbits(8) for _ in range(max(0, n - head)))
+            data = fill_bytes(rng, max(0, n - head), fills[j] if fills else 'random')
             pkt = serverbound.play.PluginMessagePacket(channel=chan, data=data)
             sent.append((sb_id, P.S(chan) + data))
             c.write_packet(pkt, force=bool((forced_mask >> j) & 1))
@@ -205,6 +217,30 @@ def run_write(version, sizes, thr, enc, seed, forced_mask=0):
     sc = holder['sc']
     got = [(fr['id'], fr['body'], fr) for fr in sc.de.frames[2 + (1 if enc else 0):]]
     return run, sent, got, sc
+
+
+def measure_frame(w, payload, thr, zlib):
+    """Fields of one written frame, found without trusting its declared lengths."""
+    plv, plb = P.vdec(w, 0)
+    rest = w[plb:]
+    o = {'n': len(payload), 'thr': -2 if thr is None else thr, 'plv': plv, 'plb': plb, 'written': len(w)}
+    if thr is None:
+        o.update(dlv=-1, dlb=0, c=len(rest), ok=(rest == payload))
+        return o
+    dlv, dlb = P.vdec(rest, 0)
+    data = rest[dlb:]
+    if dlv == 0:
+        o.update(dlv=0, dlb=dlb, c=len(data), ok=(data == payload))
+        return o
+    d = zlib.decompressobj()
+    try:
+        out = d.decompress(data)
+        c = len(data) - len(d.unused_data) if d.eof else len(data) + 1
+        ok = d.eof and out == payload
+    except zlib.error:
+        c, ok = len(data), False
+    o.update(dlv=dlv, dlb=dlb, c=c, ok=bool(ok))
+    return o
 
 
 def scale_cuts(row, concrete_frames):
@@ -363,8 +399,10 @@ def run(chk):
         thr = rng.choice([None, 0, 1, 64, 256])
         enc = rng.random() < 0.4
         t = thr if thr not in (None, 0) else 64
-        sizes = [rng.choice([t - 1, t, t + 1, 8, rng.randint(8, 60), rng.randint(200, 3000)]) for _ in range(rng.randint(1, 5))]
-        run_, sent, got, sc = run_write(version, sizes, thr, enc, chk.seed * 17 + j, forced_mask=rng.getrandbits(5))
+        sizes = [rng.choice([t - 1, t, t + 1, 8, rng.randint(8, 60), rng.randint(200, 3000), 127, 128, 129, 140, 16384 + rng.randint(-2, 40)])
+                 for _ in range(rng.randint(1, 5))]
+        fills = [rng.choice(['random', 'zeros', 'text', 'mixed']) for _ in sizes]
+        run_, sent, got, sc = run_write(version, sizes, thr, enc, chk.seed * 17 + j, forced_mask=rng.getrandbits(5), fills=fills)
         chk.traces += 1
         chk.case(('write', j))
         wrote += len(sent)
@@ -373,7 +411,7 @@ def run(chk):
             chk.violation('framing:write:recovered',
                           'peer recovered %d frames (errors %r, %d stray bytes) from %d written packets (thr %r, enc %r, protocol %d)'
                           % (len(got), sc.de.errors[:2], len(sc.de.buf), len(sent), thr, enc, version),
-                          {'sizes': sizes, 'thr': thr, 'enc': enc, 'version': version})
+                          {'sizes': sizes, 'fills': fills, 'thr': thr, 'enc': enc, 'version': version})
         else:
             for (_, _, fr) in got:
                 if fr['compressed'] and thr is not None and fr['size'] < thr:
@@ -401,6 +439,51 @@ def run(chk):
             if not ok:
                 chk.violation('framing:write:direct', 'Packet.write with threshold %r and %d data bytes is not recovered' % (thr, n),
                               {'thr': thr, 'n': n})
+    # FrameWriter: the model of the envelope (sizes), then frames of the real writer measured and judged by TLC
+    chk.tlc('MC_FrameWriter', 'FrameWriter.cfg')
+    rs = chk.tlc('MC_FrameWriter', 'FrameWriter_seeded.cfg', must_pass=False)
+    if 'WellFramed' not in rs.violated:
+        raise core.MachineryError('self-test: the envelope sized by the compressed length should violate WellFramed')
+    import zlib
+    obs = []
+    sizes_fw = [0, 1, 2, 63, 64, 65, 100, 126, 127, 128, 129, 130, 140, 255, 256, 257, 300, 1000, 16382, 16383, 16384, 16385, 16390, 20000]
+    if not quick:
+        sizes_fw += [40000, 70000, 2097151 - 3, 2097152, 2097160] + [rng.randint(0, 70000) for _ in range(60)]
+    ctx757 = Profile(757).ctx
+    for thr in (None, -1, 0, 1, 64, 127, 128, 256, 16384):
+        for n in sizes_fw:
+            for fill in ('random', 'zeros', 'text', 'mixed'):
+                if n > 100000 and fill in ('random', 'mixed'):
+                    continue
+                body = fill_bytes(rng, max(0, n - 3), fill)
+                pkt = serverbound.play.PluginMessagePacket(channel='a', data=body)
+                pkt.context = ctx757
+                payload = P.VI(pkt.get_id(ctx757)) + P.S('a') + body
+                sink = Sink()
+                pkt.write(sink, thr)
+                w = sink.value()
+                o = measure_frame(w, payload, thr, zlib)
+                o['fill'] = fill
+                obs.append(o)
+                chk.case(('fw', thr, n, fill))
+    tf3 = os.path.join(chk.work, 'framewriter.json')
+    with open(tf3, 'w') as f:
+        json.dump([{k: v for k, v in o.items() if k != 'fill'} for o in obs], f)
+    r4 = chk.tlc('Trace_FrameWriter', 'Trace_FrameWriter.cfg', env={'TRACE_FILE': tf3}, must_pass=False, workers=1)
+    if 'Law' in r4.violated:
+        import re
+        m = re.search(r'\bi = (\d+)', r4.out)
+        bad = obs[int(m.group(1)) - 1] if m else None
+        chk.violation('framing:write:envelope', 'a frame written by Packet.write violates the envelope contract of Trace_FrameWriter: %r' % (bad,), {'obs': bad})
+    elif not r4.ok and not r4.violated:
+        raise core.MachineryError('Trace_FrameWriter failed: %s' % r4.errors[:3])
+    for p_ in r4.printed:
+        if 'drift' in p_:
+            chk.drift.append({'envelope-differs-from-model': obs[p_['drift'] - 1]})
+    chk.traces += len(obs)
+    chk.extra['frames_measured'] = len(obs)
+    chk.extra['frames_measured_deflated_into_smaller_varint_class'] = sum(
+        1 for o in obs if o['dlv'] > 0 and (o['c'] < 128 <= o['n'] or o['c'] < 16384 <= o['n']))
     chk.extra['packets_written'] = wrote
     chk.extra['model_behaviours_replayed'] = len(rows[chk.seed % step::step])
     chk.extra['large_read_runs'] = n_big
